@@ -26,7 +26,11 @@ C13Cases == {[kind |-> "c13s", rule |-> t, pl |-> "single", sur |-> "plain"] : t
             \cup {[kind |-> "c13m", rule |-> t, pl |-> "method", sur |-> "plain"] : t \in C13MethodShapes}
             \cup {[kind |-> "twin", rule |-> t, pl |-> "top", sur |-> "plain"] : t \in Twins}
 
-Cases == CASE Family = "C12" -> C12Cases [] Family = "C13" -> C13Cases [] Family = "C14" -> C14Cases [] Family = "C15" -> C15Cases [] Family = "C16" -> C16Cases
+C18Cases == {[kind |-> "c16", rule |-> sh, pl |-> "plain", sur |-> "plain"] : sh \in Shapes \ {"no_go_package", "long_names", "svc_no_methods"}}
+            \cup {[kind |-> "twin", rule |-> t, pl |-> "top", sur |-> "plain"] : t \in Twins}
+            \cup {[kind |-> "c18", rule |-> sh, pl |-> "doc", sur |-> "plain"] : sh \in C18Shapes}
+
+Cases == CASE Family = "C12" -> C12Cases [] Family = "C13" -> C13Cases [] Family = "C18" -> C18Cases [] Family = "C14" -> C14Cases [] Family = "C15" -> C15Cases [] Family = "C16" -> C16Cases
 
 Build(c) == CASE c.kind = "msg"    -> C12MessageCase("PFX", c.rule, c.pl, c.sur)
               [] c.kind = "method" -> C12MethodCase("PFX", c.rule, c.sur)
@@ -35,6 +39,7 @@ Build(c) == CASE c.kind = "msg"    -> C12MessageCase("PFX", c.rule, c.pl, c.sur)
               [] c.kind = "c13p"   -> C13PairCase("PFX", c.rule)
               [] c.kind = "c13x"   -> C13ShapeCase("PFX", c.rule)
               [] c.kind = "c13m"   -> C13MethodCase("PFX", c.rule)
+              [] c.kind = "c18"    -> C18Case("PFX", c.rule)
               [] c.kind = "c14"    -> C14Case("PFX", c.rule, c.pl)
               [] c.kind = "c15"    -> C15Case("PFX", c.rule)
               [] c.kind = "c16"    -> C16Case("PFX", c.rule, 4)
@@ -67,7 +72,7 @@ Spec == Init /\ [][Next]_mvars
 \* offender; twins and imported-file placements break no rule in the files to generate
 FamilyIntent ==
   pc = "loaded" =>
-    CASE fv.kind \in {"twin", "c13s", "c13p", "c13x", "c13m", "c14", "c15", "c16"} -> Violations(schema) = {}
+    CASE fv.kind \in {"twin", "c13s", "c13p", "c13x", "c13m", "c14", "c15", "c16", "c18"} -> Violations(schema) = {}
       [] fv.pl = "imported" -> Violations(schema) = {}
       [] OTHER -> /\ \E v \in Violations(schema) : v.rule = BaseRule(fv.rule) /\ v.offender = OffenderName(fv.rule)
                   /\ \A v \in Violations(schema) : v.rule = BaseRule(fv.rule)
